@@ -765,4 +765,155 @@ theorem nw_dispatch_lmtp (s : S) (cmd arg : Bytes) (hl : s.cfg.lmtp = true)
   · rename_i h; exact absurd h hv.2.1
   · rename_i h; exact absurd h hv.2.2
 
+/-! ### AUTH -/
+
+/-- a step of the SASL mechanism (`sasl.Server.Next`) -/
+def isSasl : Ev → Bool
+  | .sasl _ _ _ _ => true
+  | _ => false
+
+/-- how many mechanism steps have been taken on this connection -/
+def sc (s : S) : Nat := (s.evs.filter isSasl).length
+
+@[simp] theorem sc_emit (s : S) (e : Ev) : sc (emit s e) = sc s + (if isSasl e then 1 else 0) := by
+  unfold sc emit
+  cases h : isSasl e <;> simp [h]
+
+@[simp] theorem sc_write (s : S) (bs : Bytes) : sc (write s bs) = sc s := by
+  unfold write
+  split
+  · rfl
+  · simp [isSasl]
+
+@[simp] theorem sc_reply (s : S) (code : Nat) (enh : Enh) (t : String) : sc (reply s code enh t) = sc s := sc_write _ _
+@[simp] theorem sc_replyB (s : S) (code : Nat) (enh : Enh) (t : List Bytes) : sc (replyB s code enh t) = sc s := sc_write _ _
+@[simp] theorem sc_popSasl (s : S) : sc (popSasl s).2 = sc s := by unfold popSasl; split <;> rfl
+@[simp] theorem sc_popAuth (s : S) : sc (popAuth s).2 = sc s := by unfold popAuth; split <;> rfl
+theorem sc_connReadLine (s : S) : sc (connReadLine s).1 = sc s := by unfold connReadLine; rfl
+theorem nw_connReadLine (s : S) : nw (connReadLine s).1 = nw s := by unfold connReadLine; rfl
+
+/-- **the challenge/response loop writes one reply per mechanism step** (334, the final 235, the mechanism's error, or the 421 owed for
+    a panic) — plus one when the client cancels with `*` or sends something that is not base64 (501 / 454) -/
+theorem owed_saslLoop : ∀ (fuel : Nat) (s : S) (resp : Option Bytes),
+    ∃ e, e ≤ 1 ∧ owed (saslLoop fuel s resp) = nw s + (sc (saslLoop fuel s resp).1 - sc s) + e ∧ sc s ≤ sc (saslLoop fuel s resp).1 := by
+  intro fuel
+  induction fuel with
+  | zero => intro s _; exact ⟨0, by omega, by simp [saslLoop], by simp [saslLoop]⟩
+  | succ fuel ih =>
+    intro s resp
+    unfold saslLoop
+    have hp := nw_popSasl s
+    have hq := sc_popSasl s
+    generalize popSasl s = p at hp hq ⊢
+    obtain ⟨st, s1⟩ := p
+    simp only [] at hp hq ⊢
+    have h1 : nw (emit s1 (.sasl resp st.challenge st.done st.res)) = nw s := by simp [isW, hp]
+    have h2 : sc (emit s1 (.sasl resp st.challenge st.done st.res)) = sc s + 1 := by simp [isSasl, hq]
+    generalize emit s1 (.sasl resp st.challenge st.done st.res) = s2 at h1 h2 ⊢
+    split
+    · exact ⟨0, by omega, by simp [h1, h2], by simp; omega⟩
+    · split
+      · refine ⟨0, by omega, ?_, ?_⟩
+        · simp only [owed_false, nw_reply, sc_reply]
+          have e1 : nw ({ s2 with c := { s2.c with didAuth := true } } : S) = nw s2 := nw_of_eq rfl rfl
+          have e2 : sc ({ s2 with c := { s2.c with didAuth := true } } : S) = sc s2 := rfl
+          rw [e1, e2, h1, h2]; omega
+        · simp only [sc_reply]
+          have e2 : sc ({ s2 with c := { s2.c with didAuth := true } } : S) = sc s2 := rfl
+          rw [e2, h2]; omega
+      · have h3 : nw (replyB s2 334 noEnh [if st.challenge.isEmpty then [] else b64Encode st.challenge]) = nw s + 1 := by simp [h1]
+        have h4 : sc (replyB s2 334 noEnh [if st.challenge.isEmpty then [] else b64Encode st.challenge]) = sc s + 1 := by simp [h2]
+        generalize replyB s2 334 noEnh [if st.challenge.isEmpty then [] else b64Encode st.challenge] = s3 at h3 h4 ⊢
+        have h5 := nw_connReadLine s3
+        have h6 := sc_connReadLine s3
+        generalize connReadLine s3 = q at h5 h6 ⊢
+        obtain ⟨s4, r⟩ := q
+        simp only [] at h5 h6 ⊢
+        cases r with
+        | error e => exact ⟨0, by omega, by simp [h5, h6, h3, h4], by simp [h6, h4]⟩
+        | ok line =>
+          simp only []
+          split
+          · exact ⟨1, by omega, by simp [h5, h6, h3, h4], by simp [h6, h4]⟩
+          · split
+            · exact ⟨1, by omega, by simp [h5, h6, h3, h4], by simp [h6, h4]⟩
+            · rename_i resp' _
+              obtain ⟨e, he, heq, hle⟩ := ih s4 (some resp')
+              refine ⟨e, he, ?_, by omega⟩
+              rw [heq, h5, h3, h6, h4]; omega
+    · exact ⟨0, by omega, by simp [h1, h2], by simp [h2]⟩
+
+theorem sc_saslLoop_pos (fuel : Nat) (s : S) (resp : Option Bytes) : sc s + 1 ≤ sc (saslLoop (fuel + 1) s resp).1 := by
+  unfold saslLoop
+  have hq := sc_popSasl s
+  generalize popSasl s = p at hq ⊢
+  obtain ⟨st, s1⟩ := p
+  simp only [] at hq ⊢
+  have h2 : sc (emit s1 (.sasl resp st.challenge st.done st.res)) = sc s + 1 := by simp [isSasl, hq]
+  generalize emit s1 (.sasl resp st.challenge st.done st.res) = s2 at h2 ⊢
+  split
+  · simp; omega
+  · split
+    · simp only [sc_reply]
+      have e2 : sc ({ s2 with c := { s2.c with didAuth := true } } : S) = sc s2 := rfl
+      rw [e2]; omega
+    · have h4 : sc (replyB s2 334 noEnh [if st.challenge.isEmpty then [] else b64Encode st.challenge]) = sc s + 1 := by simp [h2]
+      generalize replyB s2 334 noEnh [if st.challenge.isEmpty then [] else b64Encode st.challenge] = s3 at h4 ⊢
+      have h6 := sc_connReadLine s3
+      generalize connReadLine s3 = q at h6 ⊢
+      obtain ⟨s4, r⟩ := q
+      simp only [] at h6 ⊢
+      cases r with
+      | error e => simp only []; omega
+      | ok line =>
+        simp only []
+        split
+        · simp; omega
+        · split
+          · simp; omega
+          · rename_i resp' _
+            have := (owed_saslLoop fuel s4 (some resp')).choose_spec.2.2
+            omega
+  · simp; omega
+
+/-- **AUTH**: refused (or the mechanism refused to start, or a panic) — one reply; an exchange — one reply per mechanism step, plus one
+    when the client cancels or sends something that is not base64 -/
+theorem owed_handleAuth (s : S) (arg : Bytes) :
+    (owed (handleAuth s arg) = nw s + 1 ∧ sc (handleAuth s arg).1 = sc s) ∨
+    (∃ e, e ≤ 1 ∧ owed (handleAuth s arg) = nw s + (sc (handleAuth s arg).1 - sc s) + e ∧ sc s < sc (handleAuth s arg).1) := by
+  unfold handleAuth
+  split
+  · left; simp
+  split
+  · left; simp
+  split
+  · left; simp
+  split
+  · left; simp
+  simp only []
+  split
+  · left; simp
+  split
+  · left; simp
+  split
+  · left; simp
+  · have hp := nw_popAuth s
+    have hq := sc_popAuth s
+    generalize popAuth s = p at hp hq ⊢
+    obtain ⟨r, s1⟩ := p
+    simp only [] at hp hq ⊢
+    split
+    · right
+      rename_i id _ _ _
+      have h1 : nw (emit s1 (.authMech id (Text.toUpper ‹Bytes›) BRes.ok)) = nw s := by simp [isW, hp]
+      have h2 : sc (emit s1 (.authMech id (Text.toUpper ‹Bytes›) BRes.ok)) = sc s := by simp [isSasl, hq]
+      generalize emit s1 (.authMech id (Text.toUpper ‹Bytes›) BRes.ok) = s2 at h1 h2 ⊢
+      obtain ⟨e, he, heq, _⟩ := owed_saslLoop (s2.w.segs.length + s2.w.buf.length + 4) s2 ‹Option Bytes›
+      have hpos := sc_saslLoop_pos (s2.w.segs.length + s2.w.buf.length + 3) s2 ‹Option Bytes›
+      refine ⟨e, he, ?_, ?_⟩
+      · rw [heq, h1, h2]
+      · rw [← h2]; exact hpos
+    · left; simp [isW, isSasl, hp, hq]
+    · left; simp [isW, isSasl, hp, hq]
+
 end SmtpV.Server
